@@ -418,7 +418,12 @@ class C18(Prop):
           'plus the falsy values 0 / False, None, \'\', [] at every binding stage; Optional[int] annotations '
           'under auto_typing; a clone of the functor re-bound before the original is called; symbolized EXISTING '
           'classes whose __init__ computes derived state and may raise, driven through histories construct -> '
-          'rebind* (some make __init__ raise, followed by recovering rebinds). Non-trivial: at least one argument is '
+          'rebind* (some make __init__ raise, followed by recovering rebinds; declared parameters and wildcard '
+          'keywords); late binding on the functor object between construction and call (rebind / setattr / del of '
+          'named parameters, of **kwargs entries and of the *args list) combined with every call-time form; '
+          'class-based functors nested as members of class-based functors sharing member names, where the outer '
+          '_call READS the inner members, CALLS the inner functor, reads again, also from a second thread. '
+          'Non-trivial: at least one argument is '
           'supplied and the signature has at least one parameter; distinct: by the whole case.')
   trusted_base = [
       'CPython argument binding (the reference of the differential; pyBind is validated against really '
@@ -435,7 +440,8 @@ class C18(Prop):
   assumptions = ['argument values are opaque scalars (ints and the falsy values None, \'\', False, []); no argument '
                  'is pg.MISSING_VALUE; in one case 0 and False do not both occur (they are == for pyglove)',
                  'for a subclassed functor the member read `self.<m>` inside `_call` is modelled as the bound '
-                 'value overridden by the call-time value (Functor._sym_inferred)',
+                 'value overridden by the call-time value (Functor._sym_inferred); overrides are per functor '
+                 'object and per thread (PgModel OvStore / resolve), tied by the nested-functor cases',
                  'positional-only parameters are not passed by keyword (known finding F62)',
                  'keywords are not named like the *args parameter (pyglove exposes it as a symbolic field)']
 
@@ -781,6 +787,8 @@ class C18(Prop):
       cur.update((k, v) for k, v in n1[0])
     steps = []
     poisoned = None
+    if n1 is not None:
+      cur.update((k, v) for k, v in n1[2])
     for _ in range(rng.randint(1, 4) if names else 0):
       upd = []
       if poisoned is not None and rng.chance(0.7):
@@ -792,10 +800,12 @@ class C18(Prop):
       for n in rng.sample(names, rng.randint(0 if upd else 1, min(2, len(names)))):
         if all(n != k for k, _ in upd):
           upd.append([n, self.val(rng)])
+      if sig['varkw'] is not None and rng.chance(0.35):
+        upd.append([rng.choice(EXTRA_NAMES), self.val(rng)])     # a wildcard keyword is (re)bound late
       upd = [[k, v] for k, v in upd if cur.get(k, 'unset') != v] or [[names[0], 20 + len(steps)]]
       for k, v in upd:
         cur[k] = v
-      if all(v != POISON for v in cur.values()):
+      if all(cur.get(n) != POISON for n in names):
         poisoned = None
       steps.append({'upd': upd})
     case['steps'] = steps
@@ -1425,7 +1435,8 @@ class C18(Prop):
               'what': 'after construction the wrapper holds %s, the original %s' % (m['rec'], py['ok'])}
     defaults = dict((n, d) for n, d in sig['pos'] + sig['kwonly'] if d is not None)
     for i, (st, o) in enumerate(zip(case['steps'], m['steps'])):
-      named = merge_kw(named, st['upd'])
+      named = merge_kw(named, [kv for kv in st['upd'] if kv[0] in sig_names(sig)])
+      extra = merge_kw(extra, [kv for kv in st['upd'] if kv[0] not in sig_names(sig)])
       f = self._reported(sig, (named, va, extra), o['args'], 'history-step', full=True)
       if f:
         return f
